@@ -242,7 +242,51 @@ def c15():
     ]
 
 
+def extras():
+    S_IMPL = "xitorch/_impls/linalg/solve.py"
+    RS = "xitorch/_impls/optimize/root/rootsolver.py"
+    MINI = "xitorch/_impls/optimize/minimizer.py"
+    return [
+        R("c01-normal-eq-order", "C01", S_IMPL, "            return AT_fcn(A_fcn(x))", "            return A_fcn(AT_fcn(x))", "C01-N"),
+        R("c01-normal-eq-rhs", "C01", S_IMPL, "        B2 = AT_fcn(B_new)", "        B2 = A_fcn(B_new)", "C01-N"),
+        R("c01-normal-eq-rhs-untransformed", "C01", S_IMPL, "        B2 = AT_fcn(B_new)", "        B2 = B_new", "C01-N"),
+        R("c01-abe-E-layout", "C01", S_IMPL, "    E = E.reshape(1, *BE, E.shape[-1]).transpose(0, -1)  # (ncols, *BE, 1)", "    E = E.unsqueeze(0).transpose(0, -1)  # (ncols, *BE, 1)", "C01-E"),
+        R("c01-abe-B-layout", "C01", S_IMPL, "    B = B.reshape(1, *BB, *B.shape[-2:]).transpose(0, -1)  # (ncols, *BB, na, 1)", "    B = B.unsqueeze(0).transpose(0, -1)  # (ncols, *BB, na, 1)", "C01-E"),
+        R("c01-abe-no-unswap", "C01", S_IMPL, "    r = r.transpose(0, -1).squeeze(0)  # (*BAEM, na, ncols)", "    r = r.squeeze(-1).transpose(0, -1)  # (*BAEM, na, ncols)", None, expect="silent",
+          note="same shape for every batch pattern? no: kept as a probe"),
+        R("c01-setup-E-layout", "C01", S_IMPL, "        E = E.reshape(*BEs, *E.shape[-1:])\n", "        E = E\n", "C01-E"),
+        R("c03-tc-early-exit-nan", "C03", RS, "        return (dxnorm < self.x_tol) and (dxnorm < self.x_rtol * xnorm) and \\\n            (ynorm < self.f_tol) and (ynorm < self.f_rtol * self.f0_norm)",
+          "        if dxnorm >= self.x_tol or dxnorm >= self.x_rtol * xnorm:\n            return False\n        if ynorm >= self.f_tol or ynorm >= self.f_rtol * self.f0_norm:\n            return False\n        return True", "C03-TC"),
+        R("c03-tc-early-exit-nan-safe", "C03", RS, "        return (dxnorm < self.x_tol) and (dxnorm < self.x_rtol * xnorm) and \\\n            (ynorm < self.f_tol) and (ynorm < self.f_rtol * self.f0_norm)",
+          "        if not (dxnorm < self.x_tol and dxnorm < self.x_rtol * xnorm):\n            return False\n        if not (ynorm < self.f_tol and self.f_rtol * self.f0_norm > ynorm):\n            return False\n        return True", None, expect="silent"),
+        R("c03-tc-or", "C03", RS, "        return (dxnorm < self.x_tol) and (dxnorm < self.x_rtol * xnorm) and \\\n            (ynorm < self.f_tol) and (ynorm < self.f_rtol * self.f0_norm)",
+          "        return ((dxnorm < self.x_tol) and (dxnorm < self.x_rtol * xnorm)) or \\\n            ((ynorm < self.f_tol) and (ynorm < self.f_rtol * self.f0_norm))", "C03-TC"),
+        R("c03-ever-converge-unguarded", "C03", MINI, "        if not self._ever_converge and res:", "        if converge:", "C03-RB"),
+    ]
+
+
+def seeded():
+    """the independently seeded changes kept under /verif/seeded that the property's own check detects"""
+    import json
+    import os
+    here = os.path.dirname(os.path.dirname(os.path.abspath(__file__)))
+    out = []
+    sd = os.path.join(here, "seeded")
+    if not os.path.isdir(sd):
+        return out
+    for sid in sorted(os.listdir(sd)):
+        mp = os.path.join(sd, sid, "meta.json")
+        if not os.path.exists(mp) or not os.path.exists(os.path.join(sd, sid, "patch.diff")):
+            continue
+        meta = json.load(open(mp))
+        prop = meta.get("property")
+        if meta.get("detected_by_own_property") and prop:
+            out.append(P("seed-" + sid, prop, "seeded/%s/patch.diff" % sid, meta.get("detected_by", {}).get(prop) or None,
+                         note="independently seeded change"))
+    return out
+
+
 def all_mutants():
-    drop = {"c07-rk4-other-order4", "c07-rk45-A", "c07-erk-two-steps-per-interval", "c07-packer-offset"}
-    ms = [m for m in c07() + c12() + c14() + c15() if m["id"] not in drop]
+    drop = {"c01-abe-no-unswap", "c07-rk4-other-order4", "c07-rk45-A", "c07-erk-two-steps-per-interval", "c07-packer-offset"}
+    ms = [m for m in c07() + c12() + c14() + c15() + extras() + seeded() if m["id"] not in drop]
     return ms
